@@ -1051,21 +1051,30 @@ class C16(Prop):
     property_files = ["Properties/C16.v"]
     trusted = [
         "scipy.interpolate.make_interp_spline is a black box assumed to interpolate its knots (monitored on every spline curve)",
-        "scipy.optimize.minimize inside get_closest_param is a black box assumed to return a parameter inside the bounds whose "
-        "point is not farther from the query than the start point (monitored on every query); for line, circle and "
-        "linear-interpolated curves its result is certified against the exact optimum, for other curves dense-sample "
-        "optimality is validated only",
+        "scipy.optimize.minimize inside get_closest_param is a black box assumed to return, on every run, a parameter inside the "
+        "bounds whose point is not farther from the query than that run's start point (monitored on every run of every query: "
+        "the start values and the returned parameters are recorded by wrapping scipy.optimize.minimize during the call); the "
+        "number of runs per query (3 with fixes/C16-2.diff, 1 in the snapshot) is a parameter of the model read from the "
+        "implementation; for line, circle and linear-interpolated curves the final result is certified against the exact "
+        "optimum, for other curves dense-sample optimality is validated only",
         "scipy.interpolate.interp1d(kind=linear) and scipy.linalg.expm of a skew matrix are modelled (piecewise-linear "
         "interpolation, Rodrigues' formula) and compared on every case",
         "the correspondence is sampled (random curves, parameters and queries), not exhaustive; the numbers of samples of the "
-        "coarse stage (15) and of AnalyticCurve.get_length (100) are parameters of the model read from the implementation",
+        "coarse stage (15) and of AnalyticCurve.get_length (100) are parameters of the model read from the implementation; "
+        "queries next to the seam of a closed circle (both end samples are the same point up to rounding) are judged by the "
+        "direct oracle (2000 dense samples), by the per-run monitor and by the circle certificate, the ORDER of the tied starts is "
+        "not compared with the model there",
         "rational evaluators Model/C16_CurvesQ.v (vm_compute side of the correspondence): tied to the real-valued model by "
         "the lemmas of Proofs/C16_QSound.v; the per-case results themselves are correspondence evidence, not theorems",
     ]
     partial = [
-        "C16_closest_dense_partial: proved = the result is at least as close as every coarse sample for every minimiser "
-        "that does not return a point farther than its start (and the discrete curve's argmin is exact, "
-        "C16_closest_discrete; the optimum of a line curve is proved, C16_closest_line, and certified per case); missing = "
+        "C16_closest_dense_partial: proved, for the search that runs the minimiser from the ns nearest coarse samples and keeps "
+        "the best result (ns >= 1; ns = 1 is the snapshot, proved equal to minimise(argmin sample)) = every start is a coarse "
+        "sample and the first one the nearest sample; the result is the result of one run and at least as close as the result "
+        "of every run, hence never farther than the single-start result; and at least as close as EVERY coarse sample for every "
+        "minimiser that does not return a point farther than its start (the discrete curve's argmin is exact and equals the head "
+        "of the stable argsort of the refactored coarse stage, C16_closest_discrete; the optimum of a line curve is proved, "
+        "C16_closest_line, and certified per case); missing = "
         "optimality against every point of an arbitrary (spline/analytic) curve, which depends on scipy's minimiser "
         "(validated against a dense sample; certified per case with proved bounds for line, linear-interpolated and "
         "circle curves: C16_closest_line, C16_closest_linear, C16_closest_circle - the latter for an exactly unit normal, "
@@ -1073,7 +1082,8 @@ class C16(Prop):
         "C16_interpolates: the spline half rests on the interpolation assumption for make_interp_spline (monitored)",
         "C16_length_additive: additivity of the spline length holds for splits at knots only (chords through the knots); "
         "for analytic curves the 100-chord length is additive up to the discretisation error only (validated)",
-        "C16_corr_sound: covers the evaluators of points, parameters, knots, slices, argmin, point and length comparisons; "
+        "C16_corr_sound: covers the evaluators of points, parameters, knots, slices, argmin, the start indices of the search "
+        "(stable argsort), point and length comparisons; "
         "not covered: qchord_ok (chord-length parameters; qpl_mind2 is covered by C16_closest_linear)",
     ]
 
